@@ -73,6 +73,9 @@ def decomposeCompositeGlyph(
         decomposeNested=decomposeNested,
     )
     for component in list(glyph.components):
+        # take the component out before redrawing it: a component that stays (not in
+        # 'include') is added again with its identifier, which must be free by then
+        glyph.removeComponent(component)
         try:
             component.drawPoints(pen)
         except pen.MissingComponentError:
@@ -84,7 +87,6 @@ def decomposeCompositeGlyph(
                 )
             else:
                 raise
-        glyph.removeComponent(component)
 
 
 class _GlyphSet(dict):
